@@ -76,7 +76,11 @@ package server
 // starts it again); left running it connects and sends an OPEN on behalf of a neighbour that is Idle, or disabled
 //@ func (*fsmHandler).loop
 //@   claims step
-//@   loop 0 step nextState == bgp.BGP_FSM_IDLE ==> called(stop) || fsm.outgoingConnMgr == nil
+//@   loop 0 step nextState == bgp.BGP_FSM_IDLE ==> called(stopDialling)
+// (the helper: stops the connection manager whenever there is one)
+//@ func (*fsm).stopDialling
+//@   claims at-return
+//@   at-return requires fsm.outgoingConnMgr != nil ==> called(stop)
 //@ func (*fsmHandler).established$2
 //@   claims at-call
 //@   at-call bgp.NewBGPNotificationMessage( requires len(arg2) == len(m.Body.(*bgp.BGPNotification).Data) + 2 && arg2[0] == m.Body.(*bgp.BGPNotification).ErrorCode && arg2[1] == m.Body.(*bgp.BGPNotification).ErrorSubcode
